@@ -116,7 +116,7 @@ def run(ctx, report):
         report.analysed_fns.add(f.path)
         an = ctx.an(f)
         rets = ret_exprs(an)
-        ok = len(rets) == 1 and any(c.k == "call" and c.a[0].name in ("verifying_key", "from_secret_key") and any(strip(a).k == "param" and strip(a).a[0] == 1 for a in c.a[1]) for c in rets[0][2].walk())
+        ok = len(rets) == 1 and any(c.k == "call" and c.a[0].name in ("verifying_key", "from_secret_key", "public_key") and any(strip(a).k == "param" and strip(a).a[0] == 1 for a in c.a[1]) for c in rets[0][2].walk())
         report.check("ROLE", "public/" + bn, ok, "%s::public derives the public key from self" % bn, "%s::public: %s" % (bn, short(rets[0][2], 160) if rets else "?"), fn=f.path, sp=f.span, config=cfg)
     generic_decoder_rule(ctx, report)
 
@@ -137,6 +137,9 @@ def sign_role(ctx, f, an, bn):
         if inner is None:
             return False, "signature bytes are %s" % short(v, 120)
         if bn == "k256":
+            # Signature::to_bytes() is the same 64 bytes as to_vec()
+            if inner.k == "call" and inner.a[0].name == "to_bytes" and "Signature" in inner.a[0].full and inner.a[1]:
+                inner = strip(inner.a[1][0])
             sig = ok_payload(inner)
             sig = strip(sig) if sig is not None else inner
             if sig.k == "call" and sig.a[0].name == "map_err" and sig.a[1]:
